@@ -25,6 +25,22 @@ def main():
         print('MACHINERY-FAILURE: no driver for %s' % pid)
         return 2
     ctx = common.Ctx(pid, a.tier, a.seed)
+    # watchdog: a check that does not come to an end (an endless loop in the code under test, a TLC run that never finishes) is a machinery
+    # failure with a message, not a silent hang. Limits are several times the slowest run observed (quick 5 min, thorough 35 min).
+    limit = int(os.environ.get('VERIF_WATCHDOG', '3600' if a.tier == 'quick' else '21600'))
+
+    def _watchdog():
+        print('MACHINERY-FAILURE: watchdog - %s (%s tier) did not finish within %d s' % (pid, a.tier, limit), flush=True)
+        try:
+            import subprocess
+            subprocess.run(['pkill', '-9', '-P', str(os.getpid())])      # a TLC run still going on
+            ctx.abort()
+        finally:
+            os._exit(2)
+    import threading
+    wd = threading.Timer(limit, _watchdog)
+    wd.daemon = True
+    wd.start()
     try:
         if a.replay:
             with open(a.replay) as f:
